@@ -52,6 +52,7 @@ enum Kind : int {
   // process / file layer (c10)
   K_GETPID, K_TIME, K_OPEN, K_CLOSE, K_FLOCK, K_FLOCKED, K_FUNLOCK,
   K_FOPEN, K_FCLOSE, K_WRITE, K_READ,
+  K_SLEEP,  // nanosleep / usleep / sleep / sched_yield: the task is not runnable until simulated time has advanced
   K_ALLOC,  // a sampled C++ allocation (operator new) used as pre-emption point inside otherwise opaque code
   // harness points: K_USER + n
   K_USER = 64
@@ -113,7 +114,10 @@ Result run(const Config &cfg, const std::function<void()> &main_fn, size_t main_
 bool active();                 // inside run()?
 int self();                    // current task id (-1 outside)
 int self_proc();               // current simulated process (0 outside)
-long now_step();
+long now_step();               // simulated time in ticks (one tick per decision point, plus jumps when every task sleeps)
+long long now_ns();            // simulated time in nanoseconds (one tick = 50 ms)
+void sleep_ns(long long ns);   // the current task sleeps in simulated time
+constexpr long long TICK_NS = 50000000LL;
 
 void point(int kind, long obj = 0);            // decision point (may switch task)
 void event(int kind, long obj = 0, long a = 0);  // observable event (fingerprint + trace), no switch
